@@ -488,6 +488,60 @@ def linear_extensions_one(H):
 
 
 # ---------------------------------------------------------------------------
+# (f) constructor arguments the caller keeps and changes afterwards
+
+def _mutable_args_task(task):
+    """password / identities handed over as bytearray (or memoryview) and OVERWRITTEN by the caller right after construction: either
+    the constructor refuses them, or the session is the one its arguments described when it was constructed"""
+    name, side = task
+    acc = Acc()
+    inst, why = T.try_get(name)
+    if inst is None:
+        return acc
+    L = T.lib()
+    R, rp = inst.ref, inst.rp
+    pw0, x = b"correct horse", 5 % inst.q
+    ids0 = C.ids_for(side, 1)
+    w = R.pw_scalar(pw0)
+    fam = inst.kind if inst.small else inst.name
+    for which in ("pw", "ids", "view"):
+        pw = bytearray(pw0) if which == "pw" else (memoryview(bytearray(pw0)) if which == "view" else pw0)
+        ids = tuple(bytearray(i) for i in ids0) if which == "ids" else ids0
+        try:
+            if side == "S":
+                s = L.S(pw, idSymmetric=ids[0], params=inst.params, entropy_f=inst.entropy(x))
+            else:
+                s = L.cls[side](pw, idA=ids[0], idB=ids[1], params=inst.params, entropy_f=inst.entropy(x))
+        except Exception:
+            acc.seen((name, side, which, "refused"))
+            acc.n(states=1, transitions=1)
+            continue
+        # the caller wipes / reuses its buffers
+        if which == "pw":
+            pw[:] = b"X" * len(pw)
+        elif which == "view":
+            pw.obj[:] = b"X" * len(pw0)
+        else:
+            for i in ids:
+                i[:] = b"Z" * len(i)
+        m = T.observe(s.start)
+        inbound = C.inbound_menu(inst, side, w, x)[0][1]
+        blob = T.observe(s.serialize)
+        k = T.observe(s.finish, inbound)
+        k2 = T.observe(lambda: inst.restore(side, blob[1]).finish(inbound)) if blob[0] == "ok" else ("exc", "-")
+        exp = RS.finish(rp, side, pw0, w, ids0, x, inbound)
+        acc.n(states=1, transitions=4)
+        ok = m == ("ok", RS.message(rp, side, w, x)) and exp[0] == "key" and k == ("ok", exp[1]) and k2 == ("ok", exp[1])
+        acc.seen((name, side, which, "accepted", ok))
+        if not ok:
+            acc.violation("C16/%s/%s/mutable-argument-aliasing" % (fam, side),
+                          {"what": "a session constructed with a mutable %s argument changes when the caller overwrites that buffer afterwards (message/key/state no longer those of the constructor arguments)" % which,
+                           "replay": {"fn": "mutable", "name": name, "side": side, "which": which}, "expected": "refused at construction, or unaffected", "observed": [m[0], k[0], k2[0]]})
+    acc.n(traces=1)
+    return acc
+
+
+# ---------------------------------------------------------------------------
 # (e) one LONG history in one process: thresholds (pools that fill, counters that wrap, tables built after N uses)
 
 def _soak_task(task):
@@ -722,11 +776,14 @@ def run(tier, seed):
     for nm, k in ([("Params1024", 2000), ("T23", 4000)] if tier == "quick" else [("Params1024", 9000), ("Params2048", 2500), ("ParamsEd25519", 1500), ("T23", 100000)]):
         tasks.append(("soak", (nm, k)))
     tasks.append(("dflt", (300 if tier == "quick" else 1500,)))
+    for nm in (["T23", "ParamsEd25519"] if tier == "quick" else ["T23", "E37", "ParamsEd25519", "Params1024"]):
+        for sd in "ABS":
+            tasks.append(("mut", (nm, sd)))
     tasks.append(("mon", ("H3/T23/4step", tier)))
     tasks.append(("mon", ("H4=/E37/2step", tier)))
     if tier != "quick":
         tasks.append(("mon", ("H3/ParamsEd25519/2step", tier)))
-    order = {"soak": -2, "dflt": -1, "bfs": 0, "mon": 1, "il": 2}
+    order = {"soak": -2, "dflt": -1, "bfs": 0, "mon": 1, "il": 2, "mut": 1}
     tasks.sort(key=lambda t: order[t[0]])
     core.pmerge(_dispatch, tasks, acc)
     run_threads(acc, tier)
@@ -734,7 +791,8 @@ def run(tier, seed):
 
 
 def _dispatch(t):
-    return {"il": _interleave_task, "bfs": _bfs_task, "mon": _monitor_task, "soak": _soak_task, "dflt": _default_entropy_task}[t[0]](t[1])
+    return {"il": _interleave_task, "bfs": _bfs_task, "mon": _monitor_task, "soak": _soak_task, "dflt": _default_entropy_task,
+            "mut": _mutable_args_task}[t[0]](t[1])
 
 
 def replay(rec):
@@ -750,6 +808,9 @@ def replay(rec):
             if o != exp[i][len(ss[i].out) - 1]:
                 return o
         return o
+    if r["fn"] == "mutable":
+        a = _mutable_args_task((r["name"], r["side"]))
+        return sorted(a.viol)
     if r["fn"] in ("soak", "default"):
         return "re-run the check (long history)"
     if r["fn"] == "isolated":
